@@ -189,8 +189,9 @@ func verifySeal(
 
 	for seen, recent := range snap.Recents {
 		if recent == signer {
-			// Signer is among recents, only fail if the current block doesn't shift it out
-			if limit := uint64(len(snap.Validators)/2 + 1); seen > number-limit {
+			// Signer is among recents, only fail if the current block doesn't shift it out.
+			// While number < limit nothing has been shifted out yet (and number-limit would wrap around).
+			if limit := uint64(len(snap.Validators)/2 + 1); number < limit || seen > number-limit {
 				return sdkerrors.Wrap(ErrRecentlySigned, signer.Hex())
 			}
 		}
